@@ -381,6 +381,52 @@ pub fn generate(family: &str, seed: u64, n: usize, w: &mut impl Write) -> usize 
     for i in 0..n {
         let v = match family {
             "reqfuzz" => rand_req(&mut r, i),
+            "logical" => {
+                // a logical request for the reference signer: only well-formed components (the signer is honest),
+                // over all byte values the http crate admits; literal '+' is kept out of paths (known finding D7)
+                let clean = |s: String, extra: &str| -> String {
+                    s.chars().filter(|c| (*c as u32) > 0x20 && (*c as u32) != 0x7f && !"#?+".contains(*c) && !extra.contains(*c)).collect()
+                };
+                let mut path = String::from("/");
+                for k in 0..r.below(4) {
+                    if k > 0 {
+                        path.push('/');
+                    }
+                    let seg = match r.below(6) {
+                        0 => rand_escape(&mut r),
+                        1 => r.pick(&["a", "b-c", "~x", "%7Ey", "%C3%A9", "*", "a=b", "a&b", "x.y", ""]).to_string(),
+                        _ => clean(rand_piece(&mut r, &['/', '%']), ""),
+                    };
+                    path.push_str(&seg);
+                }
+                let mut query = String::new();
+                for k in 0..r.below(5) {
+                    if k > 0 {
+                        query.push('&');
+                    }
+                    let name = if r.chance(1, 2) { r.pick(&["a", "a1", "a-", "a.", "A", "b", "key", "key2"]).to_string() } else { clean(rand_piece(&mut r, &['&', '=', '%']), "") };
+                    query.push_str(&name);
+                    if !r.chance(1, 6) {
+                        query.push('=');
+                        let v = if r.chance(1, 3) { rand_escape(&mut r) } else { clean(rand_piece(&mut r, &['&', '%']), "") };
+                        query.push_str(&v);
+                    }
+                }
+                let mut hdrs: Vec<serde_json::Value> = Vec::new();
+                for _ in 0..r.below(4) {
+                    let name = r.pick(&["X-Amz-Meta-A", "x-amz-meta-a", "My-Header", "Content-Language", "X-B", "x-c"]).to_string();
+                    let n = r.below(10);
+                    let v: Vec<u8> = (0..n).map(|_| match r.below(6) { 0 | 1 => b' ', 2 => b'\t', 3 => 0x80 + r.below(0x80) as u8, _ => 0x21 + r.below(0x5e) as u8 }).collect();
+                    hdrs.push(json!([jbytes(name.as_bytes()), jbytes(&v)]));
+                }
+                let body: Vec<u8> = match r.below(4) { 0 => Vec::new(), 1 => b"a=1&b=2".to_vec(), _ => (0..r.below(30)).map(|_| r.below(256) as u8).collect() };
+                json!({"method": jbytes(r.pick(&["GET", "POST", "PUT", "DELETE"]).as_bytes()), "path": jbytes(path.as_bytes()),
+                       "query": jbytes(query.as_bytes()), "hdrs": hdrs, "body": jbytes(&body),
+                       "carrier": if r.chance(1, 2) { "hdr" } else { "qry" }, "hasToken": r.chance(1, 3),
+                       "tsoff": (r.below(1801) as i64) - 900, "tsstyle": 1 + r.below(7), "s3": r.chance(1, 3), "fold": false,
+                       "principal": (i % 1000) as i64,
+                       "mut": r.pick(&["none", "none", "spell", "spell", "uribyte", "hdrbyte", "body", "method"]), "pos": r.below(100000)})
+            }
             "path" => json!({"op": "path", "p": jbytes(rand_path(&mut r).as_bytes()), "s3": r.chance(1, 2)}),
             "query" => json!({"op": "query", "q": jbytes(rand_query(&mut r).as_bytes())}),
             "elem" => json!({"op": "elem", "el": jbytes(rand_piece(&mut r, &[]).as_bytes()), "plus": r.chance(1, 2)}),
